@@ -172,6 +172,9 @@ def _worker(args):
         if isinstance(spec, dict) and spec.get("_py_optimize") and not sys.flags.optimize:
             return _run_in_optimized_child(args)
         mod = importlib.import_module("props." + prop_name)
+        if isinstance(spec, dict) and spec.get("_scale"):
+            from vlib import hyp as _hyp
+            _hyp.SCALE = float(spec["_scale"])
         res = mod.run_shard(spec, seed, tier)
         if isinstance(spec, dict) and spec.get("_py_optimize"):
             res.classes["interpreter_started_with_-O"] = res.classes.get("interpreter_started_with_-O", 0) + res.evaluations
@@ -288,13 +291,13 @@ def run_property(prop_name, tier, replay_path=None, jobs=None):
     work = [(prop_name, spec, derive_seed(seed, prop_id, i), tier) for i, spec in enumerate(specs)]
     # The same search once more in interpreters started with -O (PYTHONOPTIMIZE=1: `assert` statements and `if __debug__` blocks
     # are compiled away; the workers' own children -- servers, clients, fresh interpreters -- inherit it): how the process was
-    # started is not an input of any property.  By default the first two Hypothesis shards of a property are repeated that way
-    # (with other seeds); a module can name its own with OPTIMIZED_SHARDS(tier).
+    # started is not an input of any property.  By default every Hypothesis shard of a property is repeated that way with other seeds
+    # and 30 % of its cases (all schemes stay covered); a module can name its own with OPTIMIZED_SHARDS(tier).
     if hasattr(mod, "OPTIMIZED_SHARDS"):
         opt_specs = list(mod.OPTIMIZED_SHARDS(tier))
     else:
-        hyp_like = [s for s in specs if isinstance(s, dict) and s.get("kind") == "hyp"] or [s for s in specs if isinstance(s, dict)]
-        opt_specs = hyp_like[:2]
+        hyp_like = [s for s in specs if isinstance(s, dict) and s.get("kind") == "hyp"]
+        opt_specs = [dict(s, _scale=0.3) for s in hyp_like] or [s for s in specs if isinstance(s, dict)][:2]
     opt_work = [(prop_name, dict(spec, _py_optimize=True), derive_seed(seed, prop_id, 1000 + i), tier) for i, spec in enumerate(opt_specs)]
     results = []
     work = work + opt_work      # an optimized shard is executed by its pool worker in a child interpreter started with -O
